@@ -226,7 +226,7 @@ def run(chk):
     for c in corpus:
         if c["kind"] == "toy":
             toy.append((c["lines"], c.get("fails"), c["mode"], c.get("file"), c.get("exprs")))
-    for _ in range(50 if quick else 1500):
+    for _ in range(40 if quick else 1500):
         lines, kind = gen_toy_program(rng)
         for mode, ft, ex in split_modes(rng, lines):
             toy.append((lines, kind, mode, ft, ex))
@@ -243,7 +243,7 @@ def run(chk):
 
     # ---- part 1b: arguments (init file, --no-init, -i, stdin) on miniature programs, model vs binary
     full = []       # (fields, job)
-    for _ in range(40 if quick else 600):
+    for _ in range(30 if quick else 600):
         lines, kind = gen_toy_program(rng)
         r = rng.random()
         if r < 0.25:
@@ -301,7 +301,7 @@ def run(chk):
     for c in corpus:
         if c["kind"] == "std":
             std.append((c["lines"], c.get("fails")))
-    for _ in range(40 if quick else 1000):
+    for _ in range(30 if quick else 1000):
         std.append(gen_std_program(rng))
     lib = S.run_sessions(binary_h, [[("J", "use prelude"), ("F", "\n".join(l))] for l, _ in std])
     jobs = []
